@@ -17,7 +17,7 @@
    and the guarded theorem covers every other zone and query.  Unsigned zones only: the DNSSEC
    sentence of the statement (RRSIGs / denial proofs under DO) is not modelled here. *)
 From HV Require Import Lib.Base C10.Model C10.NameProofs C10.StepProofs C10.ChainProofs
-  C10.RespProofs C10.MainProofs C10.SafetyProofs.
+  C10.RespProofs C10.MainProofs C10.SafetyProofs C10.SpecProofs.
 Open Scope N_scope.
 
 (* ------------------------------------------------------------------ the main theorem *)
@@ -146,6 +146,15 @@ Theorem C10_soa_query_below_cut_refuted :
                   judge z o (spec_answer z o q t) (respond z o q t) = false.
 Proof. exists zcuts, [9], [1;2;9], 6. vm_compute. repeat split. Qed.
 Print Assumptions C10_soa_query_below_cut_refuted.
+
+(* ------------------------------------------------------------------ the specification is total *)
+
+(* The reference algorithm always terminates with an expectation (its fuel is never exhausted):
+   every zone, every query, no well-formedness needed.  So [judge] in the main theorem is never
+   false for lack of an expectation. *)
+Theorem C10_spec_total : forall z o q t, spec_answer z o q t <> SOutOfFuel.
+Proof. exact spec_total. Qed.
+Print Assumptions C10_spec_total.
 
 (* ------------------------------------------------------------------ unconditional facts about the model *)
 
